@@ -248,11 +248,12 @@ def opSEQ (args obs : List String) : Option DecOut := do
             let b ← treeHex b
             let enc := if b.isEmpty then [0xc0] else b
             -- Chunk() of a RawMessage is GetChunk: an error aborts the send before anything is written
-            let chk := if ack then (match getChunk b with | .ok c _ => some c | _ => none) else some []
+            -- … and so does an empty id (the repaired `Send` refuses it: a response without an ack entry would pass for its ack)
+            let chk := if ack then (match getChunk b with | .ok c _ => (if c.isEmpty then none else some c) | _ => none) else some []
             pure (Op.send (chk.map fun _ => enc) (chk.getD []) (parseFault f) resp)
           | t => do
             let e ← encodeWithChunk t ack chunk
-            pure (Op.send e chunk (parseFault f) resp)
+            pure (Op.send (if ack && chunk.isEmpty then none else e) chunk (parseFault f) resp)
         | _ => none
       -- with a shared key configured, event data goes only to a connection on which a handshake succeeded
       let wroteTo : List String := evs.filterMap fun e =>
